@@ -1957,3 +1957,47 @@ Section PartialTranspose.
     rewrite Q. reflexivity.
   Qed.
 End PartialTranspose.
+
+(* ------------------------------------------------------------------ *)
+(* subsystem_apply: the block / sub-block / offset split is the digit split *)
+
+Theorem sa_split_is_digit_split : forall hi d lo H x L,
+  allpos (hi ++ d :: lo) -> valid hi H -> x < d -> valid lo L ->
+  let dims := hi ++ d :: lo in
+  let idx := length hi in
+  let i := undigits dims (H ++ x :: L) in
+  sa_split dims idx i = (undigits hi H, x, undigits lo L) /\
+  sa_join dims idx (undigits hi H) x (undigits lo L) = i /\
+  i < prod dims.
+Proof.
+  intros hi d lo H x L Hp VH Hx VL dims idx i.
+  assert (Ph : allpos hi) by (apply (valid_allpos _ _ VH)).
+  assert (Pl : allpos lo) by (apply (valid_allpos _ _ VL)).
+  pose proof (prod_pos hi Ph) as Hph. pose proof (prod_pos lo Pl) as Hpl.
+  pose proof (undigits_lt _ _ VH) as UH. pose proof (undigits_lt _ _ VL) as UL.
+  assert (Ei : i = undigits hi H * (d * prod lo) + (x * prod lo + undigits lo L)).
+  { unfold i, dims. rewrite undigits_app by (symmetry; apply (valid_length _ _ VH)). reflexivity. }
+  assert (Ebs : sa_blk_sz dims idx = d * prod lo).
+  { unfold sa_blk_sz, dims, idx. rewrite firstn_app, firstn_all, Nat.sub_diag. simpl firstn.
+    rewrite app_nil_r, prod_app. simpl prod. rewrite Nat.mul_comm. apply Nat.div_mul. lia. }
+  assert (Ed : nth idx dims 1 = d).
+  { unfold dims, idx. rewrite app_nth2 by lia. rewrite Nat.sub_diag. reflexivity. }
+  assert (Esub : sa_sub dims idx = prod lo).
+  { unfold sa_sub. rewrite Ebs, Ed. rewrite Nat.mul_comm. apply Nat.div_mul. lia. }
+  assert (Binner : x * prod lo + undigits lo L < d * prod lo) by nia.
+  split; [|split].
+  - unfold sa_split. rewrite Ebs, Esub, Ei.
+    assert (Q1 : (undigits hi H * (d * prod lo) + (x * prod lo + undigits lo L)) / (d * prod lo)
+                 = undigits hi H).
+    { symmetry. apply Nat.div_unique with (r := x * prod lo + undigits lo L); lia. }
+    assert (R1 : (undigits hi H * (d * prod lo) + (x * prod lo + undigits lo L)) mod (d * prod lo)
+                 = x * prod lo + undigits lo L).
+    { symmetry. apply Nat.mod_unique with (q := undigits hi H); lia. }
+    assert (Q2 : (x * prod lo + undigits lo L) / prod lo = x).
+    { symmetry. apply Nat.div_unique with (r := undigits lo L); lia. }
+    assert (R2 : (x * prod lo + undigits lo L) mod prod lo = undigits lo L).
+    { symmetry. apply Nat.mod_unique with (q := x); lia. }
+    rewrite Q1, R1, Q2, R2. reflexivity.
+  - unfold sa_join. rewrite Ebs, Esub, Ei. lia.
+  - rewrite Ei. unfold dims. rewrite prod_app. simpl prod. nia.
+Qed.
